@@ -108,6 +108,8 @@ fn wait_next_millis(last: u64) -> u64 {
     let mut now = current_millis();
     while now <= last {
         std::thread::yield_now();
+        #[cfg(feature = "sim-hooks")]
+        crate::sim_hooks::spin();
         now = current_millis();
     }
     now
